@@ -100,7 +100,12 @@ type c07FaultBatchDB struct {
 }
 
 func (d c07FaultBatchDB) Batch(f func(tx walletdb.ReadWriteTx) error) error {
-	inner := d.Backend.(walletdb.BatchDB)
+	inner, ok := d.Backend.(walletdb.BatchDB)
+	if !ok {
+		// A backend without a batch path (the SQL-backed kvdb):
+		// kvdb.Batch falls back to a plain Update there.
+		return d.c07FaultDB.Update(f, func() {})
+	}
 	if d.shouldFail() {
 		return inner.Batch(func(tx walletdb.ReadWriteTx) error {
 			if err := f(tx); err != nil {
